@@ -89,6 +89,9 @@ def cache_funnel(m):
     for n in names:
         if n and m.has_method(MODULE, n):
             return m.method(MODULE, n)
+    # name fall-back: the setter no longer calls it (C05.R4 reports that)
+    if m.has_method(MODULE, 'announceUpdate'):
+        return m.method(MODULE, 'announceUpdate')
     raise AnchorMissing('Parameter.__set__ does not call a Module method (cache funnel not found)')
 
 
